@@ -358,6 +358,7 @@ func buildShape(rng *rand.Rand, name, shape string) *vtree {
 		t.extend(rng, t.genesis, 3, vLean, &norm)
 		t.extend(rng, a[0], 2, vLean, &norm)
 	case "ghost": // two branches of empty blocks from the same parent: siblings with the same state root, the second branch longer
+		t.oneCoinbase = true
 		p := t.extend(rng, t.genesis, 1, vNone, &norm)
 		t.extend(rng, p[0], 2, vNone, &norm)
 		t.extend(rng, p[0], 3, vNone, &norm)
